@@ -431,6 +431,28 @@ class CallMixin:
                 env.setdefault(n, vnone())
         return env
 
+    def havoc_ghosts(self, st: State, c: Contract) -> None:
+        """Every ghost variable a callee's contract declares may have been changed by it: its value after the call is
+        whatever the contract's ensures clauses say, nothing more."""
+        for g in c.ghost:
+            cur = st.ghost.get(g)
+            if cur is None or cur.z is None:
+                continue
+            k = hint_kind(cur.th)
+            if k == "list":
+                r = V.r(cur.z)
+                st.hwrite("$llen", r, fresh("gl", IntS))
+                st.hwrite("$litems", r, fresh("gi", z3.ArraySort(IntS, V)))
+                st.assume(st.hread("$llen", r) >= 0)
+            elif k in ("dict", "set"):
+                r = V.r(cur.z)
+                st.hwrite("$dlen", r, fresh("gdl", IntS))
+                st.hwrite("$ddom", r, fresh("gdd", z3.ArraySort(V, z3.BoolSort())))
+                st.hwrite("$dval", r, fresh("gdv", z3.ArraySort(V, V)))
+                st.assume(st.hread("$dlen", r) >= 0)
+            else:
+                st.ghost[g] = self.typed(st, fresh("gh_" + g), cur.th)
+
     def havoc_cmodifies(self, st: State, c: Contract, env: Dict[str, Val], func) -> None:
         for cond, fields in c.cmodifies:
             g = self.spec_bool(st, cond, env, func)
@@ -534,6 +556,7 @@ class CallMixin:
             mods = [m for m in mods if not (m.split(".")[0] in c.ghost and m.split(".")[0] not in st.ghost)]
             self.havoc_cmodifies(s2, c, env, fi)
             self.havoc_modifies(s2, mods, env, fi)
+            self.havoc_ghosts(s2, c)
             if not c.pure:
                 s2.bump_alloc()
             cls = fresh("exccls", IntS)
@@ -561,11 +584,14 @@ class CallMixin:
         # normal outcome
         s1 = st
         self.havoc_cmodifies(s1, c, env, fi)
+        self.havoc_ghosts(s1, c)
         self.havoc_modifies(s1, [m for m in c.modifies if not (m.split(".")[0] in c.ghost and m.split(".")[0] not in st.ghost)], env, fi)
         rth = parse_hint(c.returns) if c.returns else (parse_hint(fi.node.returns) if fi is not None else None)
         if c.fresh_result:
             r = s1.new_ref()
             res = Val(V.R(r), th=rth)
+            if rth is not None:
+                s1.assume(z3.simplify(self.type_formula(s1, res.z, rth)))  # e.g. a fresh list has a length >= 0
             if rth is not None and hint_kind(rth) == "obj":
                 s1.assume(clsof(r) == INTERN.class_id(rth.name))
             if not c.pure:
